@@ -2196,21 +2196,12 @@ func (p *PikeVM) SearchWithSlotTableCapturesAt(haystack []byte, at int) *MatchWi
 	p.internalState.SlotTable.SetActiveSlots(totalSlots)
 	p.internalState.NextSlotTable.SetActiveSlots(totalSlots)
 
-	numGroups := p.nfa.CaptureCount()
-
-	if at == len(haystack) {
-		if p.matchesEmptyAt(haystack, at) {
-			return p.buildCapturesFromSlots(nil, at, at)
-		}
+	// An empty match at the end of the input goes through the ordinary search
+	// too: the groups that take part in it are reported at [at, at], not as
+	// unmatched.
+	if at == len(haystack) && !p.matchesEmptyAt(haystack, at) {
 		return nil
 	}
-	if len(haystack) == 0 {
-		if p.matchesEmpty() {
-			return p.buildCapturesFromSlots(nil, 0, 0)
-		}
-		return nil
-	}
-	_ = numGroups
 
 	if p.nfa.IsAnchored() {
 		return p.searchWithSlotTableCapturesAnchored(haystack, at)
